@@ -163,7 +163,7 @@ func singletonObservations(r *Run, o *Obs) (perReg map[int]int) {
 func runC01(c *eng.Ctx) {
 	cr := &caseRunner{c: c, prop: "C01"}
 	defer func() {
-		RunTwoBuilds(c, cr.next)
+		RunTwoBuilds(c, "C01", cr.next)
 		// singleton registrations whose constructors are distinct function values sharing code
 		// (closures of one literal, method values, reflect.MakeFunc): each key must be served by
 		// the output of ITS constructor
